@@ -325,7 +325,7 @@ def d1(ctx, facts, S, key, fn, inst, m, x, cfg):
         for ts2 in core.try_sites(body):
             if ts2['call_bb'] is None or ts2['ok_bb'] is None:
                 continue
-            if inst.callee_key(ts2['call_bb']) != pred:
+            if S.canon_pred(inst.callee_key(ts2['call_bb'])) != pred:
                 continue
             t2 = body.term(ts2['call_bb'])
             a2 = tuple(core.strip_var_ids(body.canon_op(a)) for a in t2['args'])
